@@ -5,6 +5,7 @@ package main
 // (current, old) and an environment of named values.
 
 import (
+	"sort"
 	"fmt"
 	"go/ast"
 	"golang.org/x/tools/go/ssa"
@@ -1311,6 +1312,21 @@ func (e *SpecEnv) evalCall(n *ast.CallExpr) *SV {
 	if i := strings.LastIndex(mname, "."); i >= 0 {
 		mname = mname[i+1:]
 	}
+	if m, ok := e.g.eng.contracts.macros[mname]; ok && m.Rec {
+		var as []*SV
+		for i := range m.Params {
+			a := arg(i)
+			if a == nil {
+				return nil
+			}
+			as = append(as, a)
+		}
+		if len(n.Args) != len(m.Params) {
+			e.fail("%s: %d arguments expected", m.Name, len(m.Params))
+			return nil
+		}
+		return e.evalRec(m, as)
+	}
 	if m, ok := e.g.eng.contracts.macros[mname]; ok {
 		if e.depth > 20 {
 			e.fail("macro recursion too deep: %s", name)
@@ -1386,4 +1402,92 @@ func (g *gen) releaseFacts(fs []*Term) {
 			g.baseFacts = append(g.baseFacts, f)
 		}
 	}
+}
+
+// evalRec evaluates an application of a primitive-recursive spec function.
+// The application becomes f!<versions>(k, args) where <versions> identifies the
+// heap versions the body reads in the current state (two applications share the
+// function symbol only if they read the very same versions of every leaf, so the
+// symbol denotes one mathematical function). Each application contributes one
+// unfolding of the definition, an instance of a total primitive-recursive
+// definition and therefore a consequence of it.
+func (e *SpecEnv) evalRec(m *SpecMacro, as []*SV) *SV {
+	g := e.g
+	if g.recName == nil {
+		g.recName = map[string]string{}
+		g.recUnfolded = map[int]bool{}
+		g.recProbe = map[string]bool{}
+	}
+	var leaves []*Term
+	for _, a := range as {
+		if a.V == nil {
+			e.fail("%s: value arguments expected", m.Name)
+			return nil
+		}
+		leaves = append(leaves, a.V.L...)
+	}
+	bind := func() *SpecEnv {
+		ne := e.clone()
+		ne.depth = e.depth + 1
+		for i, p := range m.Params {
+			ne.vars[p] = as[i]
+		}
+		return ne
+	}
+	if g.recProbe[m.Name] {
+		// inside the probing pass: the value is irrelevant, only the reads count
+		return svInt(Int(0))
+	}
+	if fn := g.recName[m.Name]; fn != "" {
+		// inside an unfolding: the recursive occurrence
+		return svInt(App(fn, SInt, leaves...))
+	}
+	// pass 1: which heap versions does the body read here?
+	ids := map[int]bool{}
+	saveHook := heapGetHook
+	heapGetHook = func(h *HV) { ids[h.id] = true }
+	g.recProbe[m.Name] = true
+	var sink []*Term
+	saveCap := g.factCapture
+	g.factCapture = &sink
+	pe := bind()
+	r1 := pe.eval(m.Body)
+	g.factCapture = saveCap
+	delete(g.recProbe, m.Name)
+	heapGetHook = saveHook
+	if r1 == nil || r1.V == nil || len(r1.V.L) != 1 || r1.V.L[0].Sort != SInt {
+		e.errs = append(e.errs, pe.errs...)
+		e.fail("recspec %s: the body must be an integer expression", m.Name)
+		return nil
+	}
+	var idl []int
+	for id := range ids {
+		idl = append(idl, id)
+	}
+	sort.Ints(idl)
+	fn := fmt.Sprintf("rec.%s!%x", m.Name, hashInts(idl))
+	app := App(fn, SInt, leaves...)
+	if !g.recUnfolded[app.id] {
+		g.recUnfolded[app.id] = true
+		g.recName[m.Name] = fn
+		ue := bind()
+		r2 := ue.eval(m.Body)
+		delete(g.recName, m.Name)
+		e.errs = append(e.errs, ue.errs...)
+		if r2 != nil && r2.V != nil && len(r2.V.L) == 1 {
+			g.releaseFacts([]*Term{Eq(app, r2.V.L[0])})
+		}
+	}
+	return svInt(app)
+}
+
+func hashInts(xs []int) uint32 {
+	h := uint32(2166136261)
+	for _, x := range xs {
+		for i := 0; i < 4; i++ {
+			h ^= uint32(x>>(8*i)) & 0xff
+			h *= 16777619
+		}
+	}
+	return h
 }
